@@ -1,4 +1,4 @@
-import GnarkVerif.Proofs.MiMCDigestGen
+import GnarkVerif.Proofs.MiMCDigestSim
 import GnarkVerif.Props.C14
 /-
 C14_mimc_gen — tie T for the MiMC digest state machine (streaming semantics).
@@ -27,6 +27,9 @@ proves that the literal of every package is `fr.Bytes` as re-extracted into Gen/
 Proved: abstraction `abs` (forget `byteOrder`), invariant `d.h < q`; every generated method = `Model.MiMC.step` on the
 corresponding `Op`, outputs and error cases included, a refused call returns the hasher unchanged (all fields); lifted to `run` over
 every op list; then the streaming theorems of Props/C14 for the generated code, the package-level `Sum`, `WriteString`.
+The same statements for an ABSTRACT element type F read through a value map `val : F → ℕ` (section "abstract element type":
+hypothesis `ParamsOKF`, abstraction `abs ∘ dmap val`; by the simulation lemmas of Proofs/MiMCDigestSim), so nothing depends on the
+choice F = ℕ; Props/C14_mimc_gen_enc instantiates F = ZMod q with the TRANSLATED `encrypt` of Gen/Hash as the parameter.
 NOT translated: `NewMiMC` (options plumbing) — a fresh hasher is any digest with `h = 0`, `data = []` (what `new(digest)` +
 `Reset` give); `Size`, `BlockSize` (constants). By-value slices: aliasing / capacity effects are outside this tie (they are K's).
 -/
@@ -399,6 +402,104 @@ theorem C14mimcgen_writeString_as_write (hM : M = refMethods X n (stateMsg n)) (
     simp [pad, encBlock_length]
   rw [hw, C14mimcgen_write_ok P bo X n M hM hok hq d hbo (encBlock P x) [x] (by simpa using hx) hp, hh]
   simp [index]
+
+end
+
+/-! ### abstract element type
+
+The same refinement for the generated code over ANY element type F, read through `val : F → ℕ` (hypothesis `ParamsOKF`:
+`val` of every element is reduced, `Add` / `encrypt` / the codecs commute with `val`). -/
+
+section
+variable {F BO : Type} [Inhabited F] (P : Params) (val : F → Nat) (bo : BO) (X : Prims F BO) (n : Int) (M : Methods F BO)
+
+/-- abstraction function for the generated hasher over F -/
+def absF (d : Mimc_bn254.digest F BO) : Digest := abs (dmap val d)
+
+/-- **one call**, abstract element type -/
+theorem C14mimcgen_stepF (hM : M = refMethods X n (stateMsg n)) (hok : ParamsOKF P val bo X) (hn : (P.size : Int) = n)
+    (d : Mimc_bn254.digest F BO) (hbo : d.byteOrder = bo) (op : Op) :
+    absF val (gstep M d op).1 = (step P (absF val d) op).1 ∧ (gstep M d op).2 = (step P (absF val d) op).2 ∧
+    (gstep M d op).1.byteOrder = bo := by
+  subst hM
+  have hsim := sim_gstep (natPrims_sim hok) n (stateMsg n) d op
+  obtain ⟨h1, h2, h3, _⟩ := gstep_refines P bo (natPrims P val X) n (stateMsg n) (natPrims_ok hok) hn (dmap val d) hbo
+    (hok.val_lt d.h) op
+  rw [hsim] at h1 h2 h3
+  exact ⟨h1, h2, h3⟩
+
+/-- **every history**, abstract element type -/
+theorem C14mimcgen_runF (hM : M = refMethods X n (stateMsg n)) (hok : ParamsOKF P val bo X) (hn : (P.size : Int) = n)
+    (d : Mimc_bn254.digest F BO) (hbo : d.byteOrder = bo) (ops : List Op) :
+    absF val (grun M d ops).1 = (run P (absF val d) ops).1 ∧ (grun M d ops).2 = (run P (absF val d) ops).2 ∧
+    (grun M d ops).1.byteOrder = bo := by
+  subst hM
+  have hsim := sim_grun (natPrims_sim hok) n (stateMsg n) ops d
+  obtain ⟨h1, h2, h3, _⟩ := grun_refines P bo (natPrims P val X) n (stateMsg n) (natPrims_ok hok) hn ops (dmap val d) hbo
+    (hok.val_lt d.h)
+  rw [hsim] at h1 h2 h3
+  exact ⟨h1, h2, h3⟩
+
+/-- **digest after any history**, abstract element type: Miyaguchi–Preneel (mathematical definition) over the concatenation of the
+blocks successfully written since the last Reset / SetState, appended to `b` -/
+theorem C14mimcgen_sum_after_historyF (hM : M = refMethods X n (stateMsg n)) (hok : ParamsOKF P val bo X) (hn : (P.size : Int) = n)
+    (d : Mimc_bn254.digest F BO) (hd : d.h = X.fZero ∧ d.data = [] ∧ d.byteOrder = bo) (ops : List Op) (b : Bytes) :
+    (gstep M (grun M d ops).1 (.sum b)).2 =
+      .bytes (b ++ encBE P.size (mpSpec P (ghostRun P {} ops).h0 (ghostRun P {} ops).blocks)) := by
+  obtain ⟨r1, _, r3⟩ := C14mimcgen_runF P val bo X n M hM hok hn d hd.2.2 ops
+  obtain ⟨_, s2, _⟩ := C14mimcgen_stepF P val bo X n M hM hok hn _ r3 (.sum b)
+  have h0 : absF val d = init := by
+    obtain ⟨h1, h2, _⟩ := hd
+    simp [absF, abs, dmap, init, h1, h2, hok.zero]
+  rw [s2, r1, h0]
+  exact C14_mimc_sum_after_history P hok.q_pos ops b
+
+/-- package-level `Sum`, abstract element type -/
+theorem C14mimcgen_pkgSumF (hM : M = refMethods X n (stateMsg n)) (hok : ParamsOKF P val X.frBE X) (msg : Bytes) :
+    (∀ xs, decodeBlocks P (pad P msg) = some xs → M.pkgSum msg = (encBE P.size (mpSpec P 0 xs), Err.nil)) ∧
+    (decodeBlocks P (pad P msg) = none → (M.pkgSum msg).1 = [] ∧ (M.pkgSum msg).2 ≠ Err.nil) := by
+  subst hM
+  have hsim := sim_pkgSum (natPrims_sim hok) msg
+  have := C14mimcgen_pkgSum P (natPrims P val X) n (refMethods (natPrims P val X) n (stateMsg n)) rfl (natPrims_ok hok) msg
+  simp only [refMethods] at this ⊢
+  rw [hsim] at this
+  exact this
+
+-- non-vacuity of `ParamsOKF`: the model's parameters over F = `Fin 101` (toy instance q = 101, BlockSize 32), `val` = `Fin.val`
+/-- parameters over `Fin 101` read off the model -/
+def finPrims : Prims (Fin 101) Unit where
+  fZero := 0
+  fAdd a b := a + b
+  encrypt k m := ⟨MiMC.encrypt { q := 101, d := 5, size := 32, consts := [3] } k.val m.val % 101, Nat.mod_lt _ (by decide)⟩
+  boElement _ blk := if h : decBlock { q := 101, d := 5, size := 32, consts := [3] } blk < 101 then (⟨_, h⟩, Err.nil)
+    else (0, Err.sentinel "invalid fr.Element encoding")
+  fBytes x := encBE 32 x.val
+  fSet z buf := if h : buf.length = 32 ∧ beToNat buf < 101 then (⟨beToNat buf, h.2⟩, Err.nil)
+    else (z, Err.sentinel "invalid fr.Element encoding")
+  frHash _ _ _ := ([0], Err.nil)
+  frBE := ()
+  BS := 32
+
+example : ParamsOKF { q := 101, d := 5, size := 32, consts := [3] } (fun x : Fin 101 => x.val) () finPrims where
+  size_pos := by decide
+  q_pos := by decide
+  blockSize := rfl
+  dflt := rfl
+  val_lt x := x.isLt
+  zero := rfl
+  add a b := by simp [finPrims, Fin.val_add]
+  enc k m := by
+    simp only [finPrims]
+    exact Nat.mod_eq_of_lt (Nat.mod_lt _ (by decide))
+  dec_ok blk _ hv := by simp [finPrims, hv]
+  dec_err blk _ hv := by simp [finPrims, hv]
+  bytes _ := rfl
+  set_ok z buf hl hv := by
+    have : buf.length = 32 ∧ beToNat buf < 101 := ⟨hl, hv⟩
+    simp [finPrims, this]
+  set_err z buf hc := by
+    have : ¬ (buf.length = 32 ∧ beToNat buf < 101) := hc
+    simp [finPrims, this]
 
 end
 
